@@ -280,6 +280,13 @@ def random_edit(st, rng, versions=None, files=None):
         return "schema_list=%s" % ",".join(sl)
     if k == "vocab":
         v = rng.choice(sorted(st["vocab"]))
+        if st["vocab"][v] and rng.random() < 0.5:
+            # change the weight of an existing vocabulary entry: dictionary rows without a weight of their own take it, so the
+            # compiled table differs (an appended row of an unused text leaves every artefact's content as it was)
+            i = rng.randrange(len(st["vocab"][v]))
+            text, w = st["vocab"][v][i]
+            st["vocab"][v][i] = (text, w + rng.randint(1, 400))
+            return "vocab-weight %s" % v
         st["vocab"][v].append((chr(rng.randint(0x4e00, 0x4e40)) + rng.choice(["", "甲", "乙"]), rng.randint(1, 500)))
         return "vocab-row %s" % v
     if k == "usevocab":
